@@ -111,6 +111,11 @@ class Translator(object):
         if isinstance(c, float):
           return fp(c, self.sort)
       raise UnsupportedConstruct('unknown name %s line %d' % (n.id, n.lineno))
+    if isinstance(n, ast.Subscript):
+      key = ast.unparse(n)
+      if key in env:
+        return env[key]
+      raise UnsupportedConstruct('subscript %s line %d' % (key, n.lineno))
     if isinstance(n, ast.UnaryOp):
       v = self.expr(n.operand, env)
       if isinstance(n.op, ast.USub):
